@@ -76,12 +76,21 @@ Definition cert (N : netlist) (nn mm : nat) (B : list (list K)) : bool :=
   | SOk T => sys_cols_ok T nn mm && is_left_inverse T nn mm B
   | SErr => false
   end.
+(* apply_test_voltage_source(Np, Nm) first REMOVES the voltage sources connected directly across the input nodes
+   (either orientation; a killed one would short the test source), then kills, then adds the test source *)
+Definition across (p m : Z) (c : sctx K) : bool :=
+  (Z.eqb (p0 c) p && Z.eqb (p1 c) m) || (Z.eqb (p0 c) m && Z.eqb (p1 c) p).
+Definition is_cV (cl : cname) : bool := match cl with cV => true | _ => false end.
+Definition m_remove_vs (p m : Z) (N : netlist) : netlist :=
+  filter (fun e => negb (is_cV (fst e) && across p m (snd e))) N.
+Definition m_transfer_net ics kd (N : netlist) p m f : netlist := m_apply_test_voltage ics kd (m_remove_vs p m N) p m f.
 End C04model.
 Arguments wf_ctxb {K}. Arguments preb {K}. Arguments wf_netb {K}. Arguments cert {K}.
 Arguments zero_ctx {K}. Arguments killnet {K}. Arguments m_kill {K}. Arguments m_kill1 {K}. Arguments m_apply_test_current {K}.
 Arguments m_apply_test_voltage {K}. Arguments m_Isc_net {K}. Arguments m_test_I {K}. Arguments m_test_V {K}. Arguments m_short {K}.
 Arguments thevenin_net {K}. Arguments norton_net {K}. Arguments ctx2 {K}. Arguments drop_ic {K}. Arguments zero_par {K}.
 Arguments is_indep : clear implicits.
+Arguments across {K}. Arguments m_remove_vs {K}. Arguments m_transfer_net {K}. Arguments is_cV : clear implicits.
 (* ---- checkers over Qc (evaluated by vm_compute in the generated cases files) ---- *)
 (* Own copies of the small dump -> model-netlist helpers (they mirror the correspondence helpers of Gen.C01model,
    which are being generalised independently); only the stable part of Gen.C01model - cname, stamp_of, netlist,
@@ -157,3 +166,52 @@ Definition c_no_fst (t : tree QcF) (I : Qc) : bool := match no t with Some r => 
 Definition c_no_snd (t : tree QcF) (Y : Qc) : bool := match no t with Some r => qc_eqb (snd r) Y | None => false end.
 Definition has_th (t : tree QcF) : bool := match th t with Some _ => true | None => false end.
 Definition has_no (t : tree QcF) : bool := match no t with Some _ => true | None => false end.
+
+(* ---- the same checkers for any executable field (used at the Gaussian rationals LT.QcI.QcIF for ac analyses,
+   where potentials and currents are phasors and the immittances are taken at s = j omega) ---- *)
+Section Generic.
+Variable K : fld.
+Notation keqb := (eqbK (K:=K)).
+Record graw := GRaw {
+  gr_cl : cname; gr_info : cinfo; gr_kind : akind; gr_typ : ctype;
+  gr_n0 : Z; gr_n1 : Z; gr_n2 : Z; gr_n3 : Z; gr_c0 : Z; gr_c1 : Z;
+  gr_L1 : nat; gr_L2 : nat;
+  gr_ic : bool; gr_cv : bool; gr_a1 : bool; gr_ts : bool;
+  gr_par : pname -> K }.
+Definition gmkctx (us : list bkey) (e : graw) : sctx K :=
+  SCtx K (gr_kind e) (gr_typ e) (gr_n0 e) (gr_n1 e) (gr_n2 e) (gr_n3 e) (gr_c0 e) (gr_c1 e)
+    (czidx (ci_id (gr_info e), false) us) (czidx (ci_id (gr_info e), true) us)
+    (czidx (ci_ctrl (gr_info e), false) us) (czidx (gr_L1 e, false) us) (czidx (gr_L2 e, false) us)
+    (gr_ic e) (gr_cv e) (gr_a1 e) (gr_ts e) (gr_par e).
+Definition gmodel_net (es : list graw) : netlist K :=
+  let us := unknowns (map gr_info es) in map (fun e => (gr_cl e, gmkctx us e)) es.
+Definition g_entries (es : list graw) (l : list (mname * Z * Z * K)) : bool :=
+  match assemble (gmodel_net es) with
+  | SErr => false
+  | SOk T => forallb (fun e => match e with (mm, r, c, x) => keqb (entry T mm r c) x end) l
+  end.
+Definition gvec_of (x : list K) (off : nat) : Z -> K := fun i => nth (off + Z.to_nat i) x (@f0 K).
+Definition gnet_solves (N : netlist K) (nn mm : nat) (x : list K) : bool :=
+  match assemble N with
+  | SErr => false
+  | SOk T =>
+      forallb (fun r => keqb (node_res T (gvec_of x 0) (gvec_of x nn) r) (@f0 K)) (cupto nn) &&
+      forallb (fun q => keqb (br_res T (gvec_of x 0) (gvec_of x nn) q) (@f0 K)) (cupto mm)
+  end.
+Definition gpvx (p m : Z) (x : list K) : K := fsub (vv (gvec_of x 0) p) (vv (gvec_of x 0) m).
+Definition gibx (nn : nat) (x : list K) (f : nat) : K := gvec_of x nn (Z.of_nat f).
+Definition g_voc (es : list graw) (nn mm : nat) (p m : Z) (x : list K) (V : K) : bool :=
+  gnet_solves (gmodel_net es) nn mm x && keqb (gpvx p m x) V.
+Definition g_isc (kd : akind) (es : list graw) (nn mm : nat) (p m : Z) (x : list K) (I : K) : bool :=
+  gnet_solves (m_Isc_net kd (gmodel_net es) p m (Z.of_nat mm)) nn (S mm) x && keqb (gibx nn x mm) I.
+Definition g_zth (ics : bool) (kd : akind) (es : list graw) (nn mm : nat) (p m : Z) (x : list K) (Zt : K) : bool :=
+  gnet_solves (m_apply_test_current ics kd (gmodel_net es) p m) nn mm x && keqb (gpvx p m x) Zt.
+Definition g_yth (ics : bool) (kd : akind) (es : list graw) (nn mm : nat) (p m : Z) (x : list K) (Y : K) : bool :=
+  gnet_solves (m_apply_test_voltage ics kd (gmodel_net es) p m (Z.of_nat mm)) nn (S mm) x && keqb (fopp (gibx nn x mm)) Y.
+(* transfer: voltage sources across the input removed, kill, test voltage at port 1, voltage at port 2 *)
+Definition g_tr (ics : bool) (kd : akind) (es : list graw) (nn mm : nat) (p m pb mb : Z) (x : list K) (H : K) : bool :=
+  gnet_solves (m_transfer_net ics kd (gmodel_net es) p m (Z.of_nat mm)) nn (S mm) x && keqb (gpvx pb mb x) H.
+Definition g_inv (es : list graw) (nn mm : nat) (B : list (list K)) : bool := cert (gmodel_net es) nn mm B.
+(* the certificate of the network with the voltage sources across (p, m) removed (transfer) *)
+Definition g_inv_rm (es : list graw) (p m : Z) (nn mm : nat) (B : list (list K)) : bool := cert (m_remove_vs p m (gmodel_net es)) nn mm B.
+End Generic.
